@@ -525,22 +525,39 @@ class UfhController(Parent, DeviceHeat):  # UFC (02):
     # def circuits(self) -> dict:  # 000C
     #     return self.circuit_by_id
 
+    def _live_msg(self, attr: str) -> Message | None:
+        """Return the msg kept in a private attr, dropping it once it has expired.
+
+        These msgs are kept outside the msg DB, so _delete_msg() never clears them.
+        """
+        msg: Message | None = getattr(self, attr)
+        if msg is not None and msg._expired:
+            setattr(self, attr, None)
+            return None
+        return msg
+
     @property
     def heat_demand(self) -> float | None:  # 3150|FC (there is also 3150|FA)
-        return self._msg_value_msg(self._heat_demand, key=self.HEAT_DEMAND)
+        return self._msg_value_msg(
+            self._live_msg("_heat_demand"), key=self.HEAT_DEMAND
+        )
 
     @property
     def heat_demands(self) -> dict | None:  # 3150|ufh_idx array
         # return self._heat_demands.payload if self._heat_demands else None
-        return self._msg_value_msg(self._heat_demands)
+        return self._msg_value_msg(self._live_msg("_heat_demands"))
 
     @property
     def relay_demand(self) -> dict | None:  # 0008|FC
-        return self._msg_value_msg(self._relay_demand, key=SZ_RELAY_DEMAND)
+        return self._msg_value_msg(
+            self._live_msg("_relay_demand"), key=SZ_RELAY_DEMAND
+        )
 
     @property
     def relay_demand_fa(self) -> dict | None:  # 0008|FA
-        return self._msg_value_msg(self._relay_demand_fa, key=SZ_RELAY_DEMAND)
+        return self._msg_value_msg(
+            self._live_msg("_relay_demand_fa"), key=SZ_RELAY_DEMAND
+        )
 
     @property
     def setpoints(self) -> dict | None:  # 22C9|ufh_idx array
